@@ -1,5 +1,6 @@
 import PyPhysim.Proofs.C17Files
 import PyPhysim.Proofs.C17Ops
+import PyPhysim.Proofs.C17Robust
 
 /-!
 # C17 — saving and loading parameters and results loses nothing
@@ -366,5 +367,145 @@ example : expand (fun _ _ => "?") [("snr", .int 5), ("M", .int 4)] [.lit "res_",
       = .ok "res_5_4" ∧
     expand (fun _ _ => "?") [("snr", .int 15), ("M", .int 4)] [.lit "res_", .field "snr", .lit "_", .field "M"]
       = .ok "res_15_4" := by constructor <;> rfl
+
+/-! ## robustness R15 — distinct values that are merely close
+
+The model has no tolerance anywhere: a float is an exact dyadic rational, a
+parameter is found by its name, a file name is built from the exact rendering.
+The theorems below say so in the form a "robustness" edit (`np.isclose`, a
+rounded key, an absolute threshold) would violate. -/
+
+/-- R15, value layer (`lookup_exact`): the JSON text determines the value. Two
+    supported values with the same text are the same value up to the numpy type
+    of their scalars — there is no pair of *different* values, however close,
+    that is written alike. -/
+theorem json_text_exact (v1 v2 : PyVal) (h1 : wf v1 = true) (h2 : wf v2 = true)
+    (h : enc v1 = enc v2) : norm v1 = norm v2 := by
+  have a := dec_enc v1 h1
+  have b := dec_enc v2 h2
+  rw [h, b] at a
+  injection a with a
+  exact a.symm
+
+/-- … in particular two different floats (Python or numpy, any width) have
+    different texts and are loaded as different floats -/
+theorem float_text_exact (f g : PyFloat) (w1 w2 : Nat) (h1 : w1 ≤ 64) (h2 : w2 ≤ 64) (hne : f ≠ g) :
+    enc (.float f) ≠ enc (.float g) ∧ enc (.npfloat w1 f) ≠ enc (.npfloat w2 g) ∧
+    dec (enc (.npfloat w1 f)) ≠ dec (enc (.npfloat w2 g)) := by
+  refine ⟨?_, ?_, ?_⟩
+  · intro h; exact hne (by simpa [enc] using h)
+  · intro h; exact hne (by simpa [enc] using h)
+  · intro h
+    rw [dec_enc _ (by simp [wf, h1]), dec_enc _ (by simp [wf, h2])] at h
+    injection h with h
+    exact hne (by simpa [norm] using h)
+
+/-- non-vacuity: the adjacent doubles 0.3 and 0.30000000000000004, and the
+    noise powers 4e-12 and 4e-13 (as the binary64 values nearest to them) -/
+example : enc (.float (.fin 5404319552844595 18014398509481984))
+      ≠ enc (.float (.fin 1351079888211149 4503599627370496)) ∧
+    enc (.float (.fin 4951760157141521 1237940039285380274899124224))
+      ≠ enc (.float (.fin 3961408125713217 9903520314283042199192993792)) := by
+  constructor <;> (intro h; revert h; simp [enc])
+
+/-- R15, setter (`setter_takes_effect_for_every_new_value`): after `p[k] = v2`
+    (or `p.add(k, v2)`) on an object — a child of any chain included — that held
+    any other value `v1` for `k`, the object is written differently than with
+    `v1`, and what is read back holds `v2` for `k`; "different" is difference of
+    the values (up to numpy scalar types), with no closeness threshold. -/
+theorem setter_takes_effect_for_every_new_value (n : Node) (rest : Chain) (k : String) (v1 v2 : PyVal)
+    (fuel : Nat) (hw : wfChain (n :: rest) = true) (hk : reserved k = false)
+    (h1 : wf v1 = true) (h2 : wf v2 = true) (hne : norm v1 ≠ norm v2) (hf : rest.length + 1 ≤ fuel) :
+    paramsToJson ({ n with parameters := setKV k v2 (setKV k v1 n.parameters) } :: rest)
+        ≠ paramsToJson ({ n with parameters := setKV k v1 n.parameters } :: rest) ∧
+    ∃ n', paramsFromJson fuel
+          (paramsToJson ({ n with parameters := setKV k v2 (setKV k v1 n.parameters) } :: rest))
+        = .ok (n' :: normChain rest) ∧ lookup k n'.parameters = some (norm v2) := by
+  rw [setKV_setKV]
+  obtain ⟨a, ha, hla, _, _⟩ := child_keeps_own_value n rest k v1 fuel hw hk h1 hf
+  obtain ⟨b, hb, hlb, _, _⟩ := child_keeps_own_value n rest k v2 fuel hw hk h2 hf
+  refine ⟨?_, b, hb, hlb⟩
+  intro h
+  rw [h, ha] at hb
+  injection hb with hb
+  injection hb with hb _
+  rw [hb, hlb] at hla
+  injection hla with hla
+  exact hne hla.symm
+
+/-- R15, file names: after `p[k] = v2` the name derived from any template that
+    mentions `{k}` differs from the name derived while `k` was `v1`, whenever the
+    two values are rendered differently (for int / str / bool values: whenever
+    they differ, `render_injective`; for floats: `repr` is injective). -/
+theorem filename_follows_setter (fr : Nat → PyFloat → String) (k : String)
+    (env : List (String × PyVal)) (v1 v2 : PyVal) (t1 t2 : String) (segs : List Seg) (a b : String)
+    (ht1 : render fr v1 = some t1) (ht2 : render fr v2 = some t2) (hocc : 0 < countField k segs)
+    (ha : expand fr (setKV k v1 env) segs = .ok a)
+    (hb : expand fr (setKV k v2 (setKV k v1 env)) segs = .ok b) (hne : t1 ≠ t2) : a ≠ b := by
+  rw [setKV_setKV] at hb
+  exact filename_injective_field fr k _ _ v1 v2 t1 t2 segs a b (lookup_setKV_self k v1 env)
+    (lookup_setKV_self k v2 env) ht1 ht2 (agreeExcept_setKV fr k v1 v2 env) hocc ha hb hne
+
+/-! ## robustness R16 — argument identity and buffer reuse
+
+The model is functional: an object is its contents. A caller who keeps one
+preallocated array, list or dict and refills it in place between two calls has,
+for everything the serialisation code may observe, assigned the new contents
+(`setKV`); the same object given for two parameters is the same value under two
+names. -/
+
+/-- R16 (`refill_eq_fresh`): whatever sequence of contents `vs` the buffer held
+    before, once it holds `v` the long-lived object is written exactly like a
+    fresh object that was given `v` — nothing of the earlier contents is left. -/
+theorem refill_eq_fresh (n : Node) (rest : Chain) (k : String) (vs : List PyVal) (v : PyVal) :
+    paramsToJson ({ n with parameters := (vs ++ [v]).foldl (fun acc x => setKV k x acc) n.parameters } :: rest)
+      = paramsToJson ({ n with parameters := setKV k v n.parameters } :: rest) := by
+  rw [foldl_setKV_last]
+
+/-- R16: one value under two names (the same array object given for two
+    parameters) is read back under both names, and a later refill seen through
+    one name only (`k1`) leaves the other entry as it was written. -/
+theorem same_value_in_two_roles (k1 k2 : String) (v v' : PyVal) (env : List (String × PyVal))
+    (hne : (k1 == k2) = false) :
+    lookup k1 (setKV k1 v (setKV k2 v env)) = some v ∧ lookup k2 (setKV k1 v (setKV k2 v env)) = some v ∧
+    lookup k2 (setKV k1 v' (setKV k1 v (setKV k2 v env))) = some v := by
+  refine ⟨lookup_setKV_self _ _ _, ?_, ?_⟩
+  · rw [lookup_setKV_other k1 k2 v hne, lookup_setKV_self]
+  · rw [lookup_setKV_other k1 k2 v' hne, lookup_setKV_other k1 k2 v hne, lookup_setKV_self]
+
+/-- R16 (earlier results are not changed by later calls): a later
+    `save_to_file` — of the same long-lived object after a refill, or of any
+    other object — adds its own file and leaves every file with another name as
+    it was; loading an earlier file afterwards gives what it gave before. -/
+theorem later_save_keeps_earlier_files (fr : Nat → PyFloat → String) (st st' : Store)
+    (s s' : SimResults) (txt : String) (tpl : List Seg) (ext : String) (f g : FName) (fuel : Nat)
+    (h : saveToFile fr st s txt tpl ext = .ok (st', s', f))
+    (hg : f ≠ { g with ext := normExt g.ext }) :
+    loadFromFile fuel st' g = loadFromFile fuel st g := by
+  obtain ⟨c, rfl⟩ := saveToFile_store fr st st' s s' txt tpl ext f h
+  unfold loadFromFile
+  simp only [storeRead_cons_ne st f _ c hg]
+
+/-- … while a later save under the *same* name replaces the file: the load gives
+    the object as it was at the later save (JSON target) -/
+theorem later_save_same_name_wins (fr : Nat → PyFloat → String) (st0 st1 st2 : Store)
+    (s1 s1' s2 s2' : SimResults) (txt : String) (tpl : List Seg) (ext : String) (f : FName) (fuel : Nat)
+    (_h1 : saveToFile fr st0 s1 txt tpl ext = .ok (st1, s1', f))
+    (h2 : saveToFile fr st1 s2 txt tpl ext = .ok (st2, s2', f))
+    (hfmt : fmtOf (normExt ext) = some .json) (hgood : goodSim s2) (hf : s2.params.length ≤ fuel) :
+    loadFromFile fuel st2 f = .ok s2'.norm := by
+  cases hp : s2.params with
+  | nil => unfold saveToFile at h2; simp only [hp] at h2; cases h2
+  | cons n rest =>
+    cases hn : getFilename fr n.parameters txt tpl with
+    | error e => unfold saveToFile at h2; simp only [hp, hn] at h2; cases h2
+    | ok stem =>
+      obtain ⟨st', f', hs, hf', hl⟩ := save_load_json fr st1 s2 txt tpl ext stem n rest fuel hp hn hfmt hgood hf
+      rw [hs] at h2
+      injection h2 with h2
+      injection h2 with ha h2
+      injection h2 with hb hc
+      subst ha; subst hb; subst hc
+      exact hl
 
 end PyPhysim.C17
